@@ -321,10 +321,10 @@ Definition OInv (os : ost) (a : bytes * phase) : Prop :=
   concat (q os) = fst a /\ ph os = snd a /\ (snd a = Fresh -> dirty os = false).
 
 Lemma flushed_sync qs d b p : concat qs = b ->
-  flushed (deliver qs d (sync_evs b)) p = Some {| q := []; dirty := false; ph := p |}.
+  exists q', concat q' = [] /\ flushed (deliver qs d (sync_evs b)) p = Some {| q := q'; dirty := false; ph := p |}.
 Proof. intros Hb. unfold sync_evs. rewrite <- (app_nil_r qs).
   destruct (deliver_flush qs [] b d Hb) as (q' & d' & Hq & ->). cbn [deliver]. rewrite app_nil_r.
-  unfold flushed. apply all_empty_concat in Hq. rewrite Hq. reflexivity. Qed.
+  exists q'. split; [exact Hq|]. unfold flushed. apply all_empty_concat in Hq. rewrite Hq. reflexivity. Qed.
 
 Lemma astep_oracle sz a o os : AInv sz a -> OInv os a ->
   let '(a1, r, es) := astep sz a o in exists os1, ostep sz os o r es = Some os1 /\ OInv os1 a1.
@@ -364,24 +364,24 @@ Proof. destruct a as [b p]. intros HA (Hq & Hp & Hd). pose proof (astep_AInv sz 
     unfold OInv; cbn [q dirty ph fst snd]. rewrite Hp. split; [exact Hqc|split; [destruct p; reflexivity|]].
     destruct p; discriminate.
   - (* Sync *)
-    cbn [ostep Nat.eqb]. rewrite (flushed_sync (q os) (dirty os) b (ph os) Hq). eexists. split; [reflexivity|].
+    cbn [ostep Nat.eqb]. destruct (flushed_sync (q os) (dirty os) b (ph os) Hq) as (qf & Hqf & ->). eexists. split; [reflexivity|].
     unfold OInv; cbn. auto.
   - (* Tick *)
     cbn [ostep]. rewrite Hp. destruct p; cbn [is_running].
     + eexists. split; [reflexivity|]. unfold OInv; cbn; auto.
-    + rewrite (flushed_sync (q os) (dirty os) b Running Hq). eexists. split; [reflexivity|].
+    + destruct (flushed_sync (q os) (dirty os) b Running Hq) as (qf & Hqf & ->). eexists. split; [reflexivity|].
       unfold OInv; cbn. repeat split; auto; try discriminate.
     + eexists. split; [reflexivity|]. unfold OInv; cbn; auto.
   - (* Stop *)
     cbn [ostep Nat.eqb]. rewrite Hp. destruct p.
     + cbn [deliver]. unfold flushed. rewrite (Hd eq_refl). 
       assert (E : all_empty (q os) = true) by (apply all_empty_concat; rewrite Hq; apply Hnr; discriminate).
-      rewrite E. eexists. split; [reflexivity|]. unfold OInv; cbn. repeat split; auto; try (symmetry; apply Hnr); try discriminate.
-    + rewrite (flushed_sync (q os) (dirty os) b Stopped Hq). eexists. split; [reflexivity|].
+      rewrite E. eexists. split; [reflexivity|]. unfold OInv; cbn. repeat split; auto; try (rewrite Hq; reflexivity); try discriminate.
+    + destruct (flushed_sync (q os) (dirty os) b Stopped Hq) as (qf & Hqf & ->). eexists. split; [reflexivity|].
       unfold OInv; cbn. repeat split; auto; try discriminate.
     + cbn [deliver]. unfold flushed.
       assert (E : all_empty (q os) = true) by (apply all_empty_concat; rewrite Hq; apply Hnr; discriminate).
-      rewrite E. eexists. split; [reflexivity|]. unfold OInv; cbn. repeat split; auto; try (symmetry; apply Hnr); try discriminate.
+      rewrite E. eexists. split; [reflexivity|]. unfold OInv; cbn. repeat split; auto; try (rewrite Hq; reflexivity); try discriminate.
 Qed.
 Lemma arun_oracle sz ops : forall a os, AInv sz a -> OInv os a ->
   let '(a1, tr) := arun sz a ops in exists os1, orun sz os ops tr = Some os1 /\ OInv os1 a1 /\ AInv sz a1.
@@ -826,3 +826,98 @@ Theorem stop_idempotent_thm fx s :
   w s2 = w s1 /\ inited s2 = inited s1 /\ stopped s2 = stopped s1 /\ loop s2 = loop s1 /\
   (es = [] \/ es = [ES]) /\ (reliable (k s1) = true -> r = RStop 0).
 Proof. intros s1. apply stop_again. apply stop_reaches_done. Qed.
+
+(* ---------- soundness of the executable oracle: what "S1" on an observation means ---------- *)
+(* independent of the model: if the oracle accepts (ops, trace, alive) -- e.g. the trace recorded
+   from the real implementation -- then that trace has the property *)
+Lemma strip_sound q0 : forall x q', strip q0 x = Some q' -> exists g, q0 = g ++ q' /\ concat g = x.
+Proof. induction q0 as [|b r IH]; intros x q' H.
+  - cbn in H. destruct (is_nil x) eqn:E; [|discriminate]. injection H as <-. apply is_nil_true in E. exists []. auto.
+  - cbn [strip] in H. destruct (is_nil x) eqn:E.
+    + injection H as <-. apply is_nil_true in E. exists []. auto.
+    + destruct ((length b <=? length x) && bytes_eqb b (firstn (length b) x)) eqn:C; [|discriminate].
+      apply andb_true_iff in C as [_ C]. apply bytes_eqb_eq in C. destruct (IH _ _ H) as (g & -> & Hg).
+      exists (b :: g). split; [reflexivity|]. cbn. rewrite Hg. rewrite C at 1. apply firstn_skipn. Qed.
+
+Lemma deliver_sound es : forall q0 d q' d', deliver q0 d es = Some (q', d') ->
+  exists gs, q0 = concat gs ++ q' /\ received es = map (@concat byte) gs.
+Proof. induction es as [|[p n|] r IH]; intros q0 d q' d' H; cbn [deliver] in H.
+  - injection H as <- <-. exists []. auto.
+  - destruct (n =? length p) eqn:E; [|discriminate]. apply Nat.eqb_eq in E. destruct (strip q0 p) as [q1|] eqn:S; [|discriminate].
+    destruct (strip_sound _ _ _ S) as (g & -> & Hg). destruct (IH _ _ _ _ H) as (gs & -> & Hr).
+    exists (g :: gs). cbn [concat map]. split; [now rewrite app_assoc|].
+    unfold received in *. cbn [map concat recv1 app]. subst n. now rewrite firstn_all, Hr, Hg.
+  - exact (IH _ _ _ _ H). Qed.
+
+(* invariant: accepted so far = groups delivered ++ queue; sink writes = the groups; bound; phase *)
+Definition OG (sz : nat) (acc sw : list bytes) (p : phase) (s : ost) : Prop :=
+  (exists groups, acc = concat groups ++ q s /\ sw = map (@concat byte) groups) /\ qlen (q s) <= sz /\ ph s = p.
+
+Lemma OG_deliver acc sw qin d es q' d' :
+  (exists groups, acc = concat groups ++ qin /\ sw = map (@concat byte) groups) ->
+  deliver qin d es = Some (q', d') ->
+  exists groups, acc = concat groups ++ q' /\ sw ++ received es = map (@concat byte) groups.
+Proof. intros (g & Ha & Hs) H. destruct (deliver_sound _ _ _ _ _ H) as (gs & -> & Hr).
+  exists (g ++ gs). rewrite concat_app, map_app, Hs, Hr, Ha. now rewrite app_assoc. Qed.
+
+Lemma flushed_inv o p s' : flushed o p = Some s' ->
+  exists q1, o = Some (q1, false) /\ all_empty q1 = true /\ s' = {| q := q1; dirty := false; ph := p |}.
+Proof. unfold flushed. destruct o as [[q1 d1]|]; [|discriminate]. destruct (all_empty q1) eqn:E; [|discriminate].
+  destruct d1; cbn; [discriminate|]. intros H. injection H as <-. eauto. Qed.
+
+Lemma ostep_sound sz acc sw s o r es s' : OG sz acc sw (ph s) s -> ostep sz s o r es = Some s' ->
+  OG sz (acc ++ acc1 o) (sw ++ received es) (phase_step (ph s) o) s' /\ res_ok o r.
+Proof. intros (HG & Hl & _) H.
+  assert (FL : forall p, flushed (deliver (q s) (dirty s) es) p = Some s' ->
+               OG sz (acc ++ []) (sw ++ received es) p s').
+  { intros p Hf. destruct (flushed_inv _ _ _ Hf) as (q1 & Hd & He & ->).
+    destruct (OG_deliver acc sw _ _ _ _ _ HG Hd) as (g & Ha & Hs). unfold OG; cbn [q ph].
+    rewrite app_nil_r. split; [eauto|]. split; [|reflexivity]. apply all_empty_concat in He. unfold qlen. rewrite He. cbn. lia. }
+  destruct o as [bs| | |], r; cbn [ostep] in H; try discriminate.
+  - destruct ((n =? length bs) && (err =? 0)) eqn:C; [|discriminate]. apply andb_true_iff in C as [C1 C2].
+    apply Nat.eqb_eq in C1, C2. destruct (deliver (q s ++ [bs]) (dirty s) es) as [[q1 d1]|] eqn:D; [|discriminate].
+    destruct (qlen q1 <=? sz) eqn:L; [|discriminate]. injection H as <-. apply Nat.leb_le in L.
+    assert (HG' : exists groups, acc ++ [bs] = concat groups ++ (q s ++ [bs]) /\ sw = map (@concat byte) groups).
+    { destruct HG as (g & -> & Hs). exists g. now rewrite app_assoc. }
+    destruct (OG_deliver _ sw _ _ _ _ _ HG' D) as (g & Ha & Hs).
+    split; [|cbn; auto]. unfold OG; cbn [q ph acc1 phase_step]. split; [eauto|]. split; [exact L|]. destruct (ph s); reflexivity.
+  - destruct (err =? 0) eqn:E; [|discriminate]. apply Nat.eqb_eq in E. split; [|exact E]. cbn [acc1 phase_step]. now apply FL.
+  - split; [|exact I]. cbn [acc1 phase_step]. destruct (ph s) eqn:P.
+    + destruct (negb delivered && is_nil es) eqn:C; [|discriminate]. injection H as <-. apply andb_true_iff in C as [_ C].
+      apply is_nil_true in C. subst es. unfold received; cbn. rewrite !app_nil_r. unfold OG. rewrite P. auto.
+    + destruct delivered; [|discriminate]. now apply FL.
+    + destruct (negb delivered && is_nil es) eqn:C; [|discriminate]. injection H as <-. apply andb_true_iff in C as [_ C].
+      apply is_nil_true in C. subst es. unfold received; cbn. rewrite !app_nil_r. unfold OG. rewrite P. auto.
+  - destruct (err =? 0) eqn:E; [|discriminate]. apply Nat.eqb_eq in E. split; [|exact E]. cbn [acc1].
+    replace (phase_step (ph s) Stop) with (match ph s with Running => Stopped | p => p end) by (destruct (ph s); reflexivity).
+    now apply FL.
+Qed.
+
+Lemma orun_sound sz ops : forall tr acc sw s s', OG sz acc sw (ph s) s -> orun sz s ops tr = Some s' ->
+  OG sz (acc ++ accepted ops) (sw ++ received (all_evs tr)) (fold_left phase_step ops (ph s)) s' /\
+  Forall2 res_ok ops (map fst tr).
+Proof. induction ops as [|o r IH]; intros tr acc sw s s' HG H; destruct tr as [|[rs es] tr]; cbn [orun] in H; try discriminate.
+  - injection H as <-. unfold accepted, all_evs, received. cbn. rewrite !app_nil_r. split; [exact HG|constructor].
+  - destruct (ostep sz s o rs es) as [s1|] eqn:S; [|discriminate]. destruct (ostep_sound _ _ _ _ _ _ _ _ HG S) as [HG1 Hr].
+    assert (P1 : ph s1 = phase_step (ph s) o) by (destruct HG1 as (_ & _ & ?); assumption).
+    rewrite <- P1 in HG1. destruct (IH _ _ _ _ _ HG1 H) as [HG2 Hrs].
+    unfold accepted, all_evs in *. cbn [map concat fold_left fst snd]. rewrite received_app, !app_assoc, <- P1.
+    split; [exact HG2|constructor; assumption]. Qed.
+
+Theorem oracle_sound c ops tr alive : strong_ok c ops tr alive = true ->
+  (exists groups rest, accepted ops = concat groups ++ rest /\ received (all_evs tr) = map (@concat byte) groups /\
+                       length (concat rest) <= eff_size c) /\
+  Forall2 res_ok ops (map fst tr) /\ alive = is_running (spec_phase ops).
+Proof. unfold strong_ok. destruct (orun (eff_size c) oinit ops tr) as [s'|] eqn:H; [|discriminate]. intros Ha.
+  assert (G0 : OG (eff_size c) [] [] (ph oinit) oinit).
+  { unfold OG, oinit, qlen; cbn. split; [exists []; auto|]. split; [lia|reflexivity]. }
+  destruct (orun_sound _ _ _ _ _ _ _ G0 H) as [((g & Hacc & Hsw) & Hl & Hp) Hr]. cbn [app] in *.
+  split; [exists g, (q s'); auto|]. split; [exact Hr|]. apply eqb_prop in Ha. rewrite Ha, Hp. reflexivity. Qed.
+
+Theorem weak_oracle_sound ops : forall tr p, wrun p ops tr = true ->
+  exists p', p ++ consumed ops tr = concat (received (all_evs tr)) ++ p'.
+Proof. induction ops as [|o r IH]; intros tr p H; destruct tr as [|[rs es] tr]; cbn [wrun] in H; try discriminate.
+  - exists p. unfold consumed, all_evs, received. cbn. now rewrite app_nil_r.
+  - destruct (wstep p o rs es) as [p1|] eqn:S; [|discriminate]. apply wstep_sound in S. destruct (IH _ _ H) as (p' & Hp).
+    exists p'. unfold consumed, all_evs in *. cbn [combine map concat snd]. rewrite received_app, concat_app, app_assoc, S.
+    rewrite <- !app_assoc. f_equal. exact Hp. Qed.
